@@ -9,7 +9,8 @@ import Vgi.Util
   conditions and the handler expression;
 * for every handler named by a registration: whether its body calls `h.authenticate(w, r)`, whether
   a `nil` result returns immediately, and the (classified) statements that run before that call;
-* the handler methods `ServeHTTP` calls directly (bypassing the mux).
+* the handler methods `ServeHTTP` calls directly (bypassing the mux);
+* the shape of `HttpServer.authenticate` itself: where it returns a non-nil context.
 -/
 namespace Vgi.RouteAuth
 
@@ -68,10 +69,26 @@ structure DirectFact where
   handler : String
   deriving DecidableEq, Repr
 
+/-- A `return` of `HttpServer.authenticate` with the `if` conditions enclosing it. -/
+structure ReturnFact where
+  conds : List String
+  expr : String
+  deriving DecidableEq, Repr
+
+/-- Shape of `HttpServer.authenticate`. -/
+structure GateFact where
+  ctxVar : String          -- `ctxVar, errVar := h.authenticateFunc(r)`
+  errVar : String
+  callTopLevel : Bool      -- that call is a top-level statement
+  errBranchExit : Bool     -- followed by `if errVar != nil { ...; return nil }`
+  returns : List ReturnFact
+  deriving DecidableEq, Repr
+
 structure Table where
   routes : List RouteFact
   handlers : List HandlerFact
   direct : List DirectFact
+  gate : GateFact
   deriving Repr
 
 end Vgi.RouteAuth
